@@ -1,6 +1,6 @@
 SPECIFICATION Spec
 CONSTANTS
-  MaxObj = 40
+  MaxObj = 80
 INVARIANTS NotAccepted
 CONSTRAINT Track
 POSTCONDITION Report
